@@ -196,8 +196,13 @@ class LoadScopeScheduling:
                 "Unable to identify crashitem on a workload with pending items"
             )
 
-        # Made uncompleted work unit available again
-        self.workqueue.update(workload)
+        # The crashed test gets reported as failed: it must not be run again
+        work_unit[crashitem] = True
+
+        # Make the work units which still have pending tests available again
+        for scope, work_unit in workload.items():
+            if self._pending_of({scope: work_unit}):
+                self.workqueue[scope] = work_unit
 
         for node in self.assigned_work:
             self._reschedule(node)
